@@ -62,6 +62,10 @@ func (m *inlineSelectionsFromInlineFragmentsVisitor) couldInline(inlineFragmentR
 
 	for _, fragmentSelectionRef := range fragmentSelectionRefs {
 		nestedFragmentRef := m.operation.Selections[fragmentSelectionRef].Ref
+		if !m.operation.InlineFragmentHasTypeCondition(nestedFragmentRef) {
+			// a fragment without a type condition is of the type of its parent
+			continue
+		}
 		nestedInlineFragmentTypeName := m.operation.InlineFragmentTypeConditionName(nestedFragmentRef)
 
 		isCompatibleFragmentType := bytes.Equal(nestedInlineFragmentTypeName, enclosingTypeName) ||
